@@ -4,6 +4,11 @@ import json
 import sys
 
 LEVEL_TEXT = {
+    'C20': ("PARTIAL. Machine-checked over a site table regenerated from the current headers (every std::move / std::forward applied to a reference parameter of a "
+            "library function reachable from binding.h): no l-value handed in by a caller is turned into an r-value that initialises a library object (the only move "
+            "out of a forwarding reference ends in a const-reference constructor parameter), and the library stores decayed copies of callables, constants and "
+            "bound connect arguments. The extraction is a static analysis written for this task; a run-time grid of entry points x argument kinds (all l-values) "
+            "searches for a concrete altered argument.", '6/C20'),
     'C18': ("PARTIAL by nature. Machine-checked over tables regenerated from the current headers: get_arity has exactly one overload for each of the 24 cv/ref/"
             "noexcept member-function qualifications (arguments + 1), for plain and noexcept function pointers and for generic callables; bind_first passes the "
             "callable, the bound values BY VALUE and placeholders _1.._k with k = arity - |bound|; hence (std::bind per the standard) the callable receives the "
